@@ -14,7 +14,5 @@ for name in sorted(res):
     r = res[name]
     first = r["checks"][m["property"]]["first"]
     inv = re.search(r"invariant=(\S+)", first)
-    caught = r["caught_by"]
-    if name in resall:
-        caught = resall[name]["caught_by"]
+    caught = sorted(set(r["caught_by"]) | set(resall.get(name, {}).get("caught_by", [])))
     print(f"| {name} | {m['property']} | {n.get('what','')} | {n.get('needs','')} | {', '.join(caught) or 'MISSED'} | {inv.group(1) if inv else ''} | {n.get('remark','')} |")
